@@ -185,7 +185,8 @@ class SG:
                 return
         self.budget -= 1
         depth = len(self.scopes) - 1
-        simple = [(5, self.s_def), (3, self.s_read), (3, self.s_assign), (2, self.s_tuple_def), (1, self.s_tuple_assign)]
+        simple = [(5, self.s_def), (3, self.s_read), (3, self.s_assign), (2, self.s_tuple_def), (1, self.s_tuple_assign),
+                  (1, self.s_bare_def), (2, self.s_builder)]
         compound = [(3, self.s_if), (2, self.s_match), (2, self.s_for), (1, self.s_while), (2, self.s_handle)]
         if self.self_mut is not None:
             simple.append((3, self.s_self_field))
@@ -214,6 +215,46 @@ class SG:
         self.features.add("def_fin" if fin else "def_mut")
         if any(name in s for s in self.scopes[:-1]):
             self.features.add("shadow_outer")
+
+    def s_bare_def(self, ind):
+        """a definition without initialiser (with or without type): assignable iff it is not fin; it is given a value before any
+        read (a read of a variable that holds nothing is not what the model is about)"""
+        name = self.pick(self.binder_pool())
+        fin = self.chance(40)
+        typed = self.chance(50)
+        if self.chance(25):
+            other = self.pick([n for n in self.binder_pool() if n != name])
+            self.emit(ind, "def %s(%s, %s)" % ("fin " if fin else "", name, other))
+            self.define(name, Var(not fin, "X"))
+            self.define(other, Var(not fin, "X"))
+            self.features.add("bare_tuple_def" + ("_fin" if fin else ""))
+            return
+        self.emit(ind, "def %s%s%s" % ("fin " if fin else "", name, ": Int" if typed else ""))
+        self.define(name, Var(not fin, "X"))
+        self.features.add("bare_def" + ("_fin" if fin else "") + ("_typed" if typed else ""))
+        if not fin and self.may_assign(name) and self.chance(70):
+            self.emit(ind, "%s := %s" % (name, self.int_atom()))
+            if typed:
+                self.define(name, Var(True))   # an Int variable with a value from here on
+
+    def s_builder(self, ind):
+        """a list / set builder, as initialiser or as a statement of its own: its variable lives inside the builder only"""
+        v = self.pick(self.binder_pool())
+        src = "[%s, %s]" % (self.int_atom(), self.int_atom())
+        cond = (", %s > %d" % (v, self.i(0, 3))) if self.chance(40) else ""
+        kind = self.pick(["def_list", "def_set", "statement", "statement"])
+        if kind == "statement":
+            self.emit(ind, "[%s + 1 | %s in %s%s]" % (v, v, src, cond))
+        else:
+            self.n_fresh += 1
+            b = "bl%d" % self.n_fresh
+            if kind == "def_list":
+                self.emit(ind, "def %s: List[Int] := [%s * 2 | %s in %s%s]" % (b, v, v, src, cond))
+            else:
+                self.emit(ind, "def %s: Set[Int] := {%s | %s in %s%s}" % (b, v, v, src, cond))
+            self.define(b, Var(True, "L"))
+        self.ever_defined.add(v)
+        self.features.add("builder_" + kind)
 
     def s_tuple_def(self, ind):
         pool = self.binder_pool()
@@ -448,7 +489,7 @@ class SG:
     def plant(self, ind):
         if self.fault == "read":
             pools = set(GLOBAL_POOL + FUN_POOL + PARAMS) | self.ever_defined | {"ea0", "eb0", "zq"}
-            cands = sorted(n for n in pools if self.lookup(n) is None and not n.startswith("wk") and not n.startswith("kv"))
+            cands = sorted(n for n in pools if self.lookup(n) is None and not n.startswith(("wk", "kv", "bl")))
             if not cands:
                 return False
             n = self.pick(cands)
@@ -464,7 +505,7 @@ class SG:
             return True
         # assign
         opts = []
-        fin_names = self.visible(lambda n, v: v.ty == "I" and not v.mut)
+        fin_names = self.visible(lambda n, v: v.ty in ("I", "X") and not v.mut)
         if fin_names:
             opts += ["fin_var"] * 3
             if self.assign_targets() or len(fin_names) > 1:
